@@ -363,7 +363,7 @@ def check_pad_snap(project: Project, rep):
     rep.analysed(uv)
     uvn = fn_view(project, uv)
     pads = [n for n in ast.walk(uvn) if isinstance(n, ast.Call) and project.resolve(uv.module, n.func, local_names(uvn)) == "numpy.pad"]
-    if len(pads) < 2 and sem.get("vals") != "ok":
+    if len(pads) < 2 and sem.get("vals") not in ("ok", "refuted"):
         rep.unmodelled("AR-PAD", uv, uv.node, "padding calls not found")
     for pnode in pads:
         target = ast.unparse(pnode.args[0]) if pnode.args else None
